@@ -177,6 +177,24 @@ def make_replacement(rng, pat_elems, pat_pos, cfg, side="r", allow_empty=True):
     return rj, info
 
 
+def relabel_like_structure(rng, rj, retained_label):
+    """`retained_label`: {pattern atom: type label its partner atom has in the structure}. For some of the retained
+    atoms the pattern's type takes exactly that label, but keeps its own (distinct) pair coefficient and gets a mass
+    that differs from the element's (still within the mass-guess tolerance of the LAMMPS reader). Returns #types hit."""
+    M = masses()
+    done = {}
+    for i, lab in sorted(retained_label.items()):
+        t = rj["atoms"][i]["ty"]
+        if t in done or rng.random() < 0.25:
+            continue
+        if lab in rj["types"]["label"] and rj["types"]["label"][t] != lab:
+            continue                      # would give two pattern types the same label
+        rj["types"]["label"][t] = lab
+        rj["types"]["mass"][t] = core.q(Fraction(M[rj["types"]["elem"][t]]).limit_denominator(10 ** 6) + Fraction(3, 64))
+        done[t] = lab
+    return len(done)
+
+
 def make_structure(rng, geo, rj, rinfo, cfg):
     """the typed structure around the planted geometry `geo` (findlib.planted_structure), with bystander atoms and
     terms inside / outside / across the planted copies and on exactly the atoms of pattern terms (fwd / reversed)"""
@@ -268,6 +286,14 @@ def make_structure(rng, geo, rj, rinfo, cfg):
     sj["types"]["label"] = tlab
     sj["types"]["mass"] = [core.q(M[e]) for e in tel]
     sj["types"]["pair"] = [pair_text("s", l, rng) for l in tlab] if cfg.get("s_pair") else []
+    stats["same_label"] = 0
+    if cfg.get("same_label") and bases and rinfo["retained"]:
+        # every copy's partner atom gets the type its partner has in the first copy, so the labels collide everywhere
+        for i, j in rinfo["retained"].items():
+            for b in bases[1:]:
+                rows[b + j]["ty"] = rows[bases[0] + j]["ty"]
+        stats["same_label"] = relabel_like_structure(
+            rng, rj, {i: tlab[rows[bases[0] + j]["ty"]] for i, j in rinfo["retained"].items()})
     return sj, stats
 
 
@@ -303,6 +329,11 @@ def random_cfg(rng, combos=None):
            "s_pair": rng.random() < 0.6, "r_pair": rng.random() < 0.6,
            "s_xatom": rng.random() < 0.4, "r_xatom": rng.random() < 0.4,
            "s_xterm": {k: rng.random() < 0.5 for k in KINDS}, "r_xterm": {k: rng.random() < 0.5 for k in KINDS}}
+    # a good share of cases: the pattern RE-PARAMETERISES a retained atom under the SAME type label (and element) as
+    # the structure's type of that atom, with a different mass and a different pair coefficient (both pair tables)
+    cfg["same_label"] = rng.random() < 0.4
+    if cfg["same_label"]:
+        cfg["s_pair"] = cfg["r_pair"] = True
     return cfg
 
 
@@ -322,7 +353,7 @@ def synthetic_case(rng, combos=None, pname=None, big=False):
     opts = {"atol": 0.05, "fraction": 1.0 if rng.random() < 0.8 else rng.choice([0.5, 0.34, 0.75]),
             "replace_all": rng.random() < 0.15, "ignore": False, "seed": rng.randint(0, 10 ** 6)}
     meta = {"pattern": pname, "cell": geo["info"]["cell"], "copies": geo["info"]["copies"], "combo": cfg["combo"],
-            "s_pair": cfg["s_pair"], "r_pair": cfg["r_pair"], "override_planned": stats["override_planned"]}
+            "s_pair": cfg["s_pair"], "r_pair": cfg["r_pair"], "override_planned": stats["override_planned"], "same_label_types": stats["same_label"]}
     return {"s": sj, "p": search_json(pe, pp), "r": rj, "opts": opts, "meta": meta}
 
 
@@ -350,8 +381,16 @@ def chained_second(rng, first_case, result1):
     ns = len(s2["types"]["elem"])
     if s2["types"]["pair"] and len(s2["types"]["pair"]) != ns:
         cfg["r_pair"] = False
+    aligned = len(s2["types"]["pair"]) == ns and ns > 0
+    if cfg.get("same_label") and not aligned:
+        cfg["same_label"] = False
     rj, rinfo = make_replacement(rng, pe, pp, cfg, side="t", allow_empty=False)
+    nsame = 0
+    if cfg.get("same_label"):
+        # the atoms the second pattern retains are atoms of the first pattern: they carry ITS type labels now
+        nsame = relabel_like_structure(
+            rng, rj, {i: r1["types"]["label"][r1["atoms"][j]["ty"]] for i, j in rinfo["retained"].items()})
     opts = {"atol": 0.05, "fraction": 1.0, "replace_all": False, "ignore": False, "seed": rng.randint(0, 10 ** 6)}
     meta = {"pattern": "chain:" + first_case["meta"]["pattern"], "cell": first_case["meta"]["cell"], "combo": combos,
-            "s_pair": bool(s2["types"]["pair"]), "r_pair": cfg["r_pair"], "chain": 2, "override_planned": 0}
+            "s_pair": bool(s2["types"]["pair"]), "r_pair": cfg["r_pair"], "chain": 2, "override_planned": 0, "same_label_types": nsame}
     return {"s": s2, "p": search_json(pe, pp), "r": rj, "opts": opts, "meta": meta}
